@@ -137,6 +137,8 @@ package types
 //@ macro ccDenom(cc) = substr(ccData(cc).Denom, strlen(denomPrefix(ccIBC(cc).sourcePort, ccIBC(cc).sourceChannel)), strlen(ccData(cc).Denom) - strlen(denomPrefix(ccIBC(cc).sourcePort, ccIBC(cc).sourceChannel)))
 
 //@ func (self PayloadAdapter) AdaptPacket(ctx, id, packet) (op, err)
+//   (the decoded payload and its action list are recorded by the JSON parser: ghosts dec_*)
+//@   modifies dec_payload, dec_actions
 //@   requires[base] packet != nil && ref(packet) != 0
 //@   sets-post adapt_err = err
 //@   sets-post adapt_op = op
@@ -191,6 +193,8 @@ package types
 
 // The adapter controller behind the adapter's router (implemented by the IBC adapter).
 //@ func (self AdapterController) ParsePacket(ccPacket) (result, err)
+//   (the decoded payload and its action list are recorded by the JSON parser: ghosts dec_*)
+//@   modifies dec_payload, dec_actions
 //@   requires[base] ref(ccPacket) != 0
 //@   ensures[base] err == nil ==> result != nil && payloadFieldsOK(result.Payload) && !isnil(result.Coin.Amount)
 //@   ensures[base] err == nil ==> fresh(result)
